@@ -54,17 +54,18 @@ const (
 
 // ProbeFault describes what goes wrong with a schema probe deployment of one plugin source.
 type ProbeFault struct {
-	DeployFail bool  `json:"deploy_fail,omitempty"`
-	ReadEOFAt  int64 `json:"read_eof_at,omitempty"`   // >0: plugin->engine stream ends after N bytes
-	WriteFail  int64 `json:"write_fail_at,omitempty"` // >0: engine->plugin writes fail after N bytes
-	CloseErr   bool  `json:"close_err,omitempty"`
+	DeployFail    bool  `json:"deploy_fail,omitempty"`
+	KillAtByte    int64 `json:"kill_at_byte,omitempty"`    // >0: the connection dies once N plugin->engine bytes were delivered
+	KillAfterMsgs int   `json:"kill_after_msgs,omitempty"` // >0: the connection dies right after the k-th plugin->engine message was delivered completely
+	CloseErr      bool  `json:"close_err,omitempty"`
 }
 
-// RunFault describes connection-level faults for the run deployment of one workflow step id.
+// RunFault describes connection-level faults for the run deployment of one plugin source.
 type RunFault struct {
-	ReadEOFAt  int64 `json:"read_eof_at,omitempty"` // plugin->engine stream dies after N bytes (both directions fail)
-	CloseErr   bool  `json:"close_err,omitempty"`
-	SchemaDrop bool  `json:"schema_drop,omitempty"` // the deployed plugin lacks the steps (schema mismatch at start)
+	KillAtByte    int64 `json:"kill_at_byte,omitempty"`
+	KillAfterMsgs int   `json:"kill_after_msgs,omitempty"`
+	CloseErr      bool  `json:"close_err,omitempty"`
+	SchemaDrop    bool  `json:"schema_drop,omitempty"` // the deployed plugin lacks the steps (schema mismatch at start)
 }
 
 // Plan is the fault plan of a run that is not expressed in the workflow text.
@@ -297,19 +298,12 @@ func (c *connector) Deploy(ctx context.Context, src string) (deployer.Plugin, er
 	d.conn = conn
 	d.OK = true
 	if probe {
-		if pf.ReadEOFAt > 0 {
-			conn.s2c.failAt = pf.ReadEOFAt
-			conn.killOnFail = true
-		}
-		if pf.WriteFail > 0 {
-			conn.c2s.writeFailAt = pf.WriteFail
-		}
+		conn.s2c.failAt, conn.s2c.failAfterMsgs = pf.KillAtByte, pf.KillAfterMsgs
+		conn.killOnFail = pf.KillAtByte > 0 || pf.KillAfterMsgs > 0
 		conn.closeErr = pf.CloseErr
 	} else if rf, ok := w.Plan.Run[src]; ok {
-		if rf.ReadEOFAt > 0 {
-			conn.s2c.failAt = rf.ReadEOFAt
-			conn.killOnFail = true
-		}
+		conn.s2c.failAt, conn.s2c.failAfterMsgs = rf.KillAtByte, rf.KillAfterMsgs
+		conn.killOnFail = rf.KillAtByte > 0 || rf.KillAfterMsgs > 0
 		conn.closeErr = rf.CloseErr
 		conn.schemaDrop = rf.SchemaDrop
 	}
@@ -323,16 +317,18 @@ func (c *connector) Deploy(ctx context.Context, src string) (deployer.Plugin, er
 // connection
 
 type pipeBuf struct {
-	mu          sync.Mutex
-	buf         []byte
-	closed      bool
-	dead        bool
-	notify      chan struct{}
-	delivered   int64
-	written     int64
-	failAt      int64 // >0: reads fail once this many bytes were delivered
-	writeFailAt int64 // >0: writes fail once this many bytes were written
-	onFail      func()
+	mu            sync.Mutex
+	buf           []byte
+	closed        bool
+	dead          bool
+	notify        chan struct{}
+	delivered     int64
+	written       int64
+	failAt        int64 // >0: the fault fires once this many bytes were delivered
+	failAfterMsgs int   // >0: the fault fires once the k-th written message was delivered completely
+	msgEnds       []int64
+	writeFailAt   int64 // >0: writes fail once this many bytes were written
+	onFail        func()
 }
 
 func newPipe() *pipeBuf { return &pipeBuf{notify: make(chan struct{}, 1)} }
@@ -356,9 +352,21 @@ func (p *pipeBuf) Write(b []byte) (int, error) {
 	}
 	p.buf = append(p.buf, b...)
 	p.written += int64(len(b))
+	p.msgEnds = append(p.msgEnds, p.written)
 	p.mu.Unlock()
 	p.signal()
 	return len(b), nil
+}
+
+// faultDue reports (with p.mu held) whether the scripted fault point has been reached.
+func (p *pipeBuf) faultDue() bool {
+	if p.failAt > 0 && p.delivered >= p.failAt {
+		return true
+	}
+	if p.failAfterMsgs > 0 && len(p.msgEnds) >= p.failAfterMsgs && p.delivered >= p.msgEnds[p.failAfterMsgs-1] {
+		return true
+	}
+	return false
 }
 
 func (p *pipeBuf) Read(b []byte) (int, error) {
@@ -369,7 +377,7 @@ func (p *pipeBuf) Read(b []byte) (int, error) {
 			p.signal()
 			return 0, io.ErrUnexpectedEOF
 		}
-		if p.failAt > 0 && p.delivered >= p.failAt {
+		if p.faultDue() {
 			f := p.onFail
 			p.onFail = nil
 			p.mu.Unlock()
@@ -391,7 +399,16 @@ func (p *pipeBuf) Read(b []byte) (int, error) {
 			p.buf = p.buf[n:]
 			p.delivered += int64(n)
 			more := len(p.buf) > 0
+			// the connection dies as soon as the fault point is reached, not at the next read
+			var f func()
+			if p.faultDue() {
+				f = p.onFail
+				p.onFail = nil
+			}
 			p.mu.Unlock()
+			if f != nil {
+				f()
+			}
 			if more {
 				p.signal()
 			}
@@ -623,7 +640,7 @@ func Nonce(src string, in Input) string {
 
 // Compute is what a successful execution returns for an input (the reference model uses it too).
 func Compute(src string, in Input) Success {
-	out := Success{A: in.A*2 + 1, S: "<" + in.S + ">", Nonce: Nonce(src, in)}
+	out := Success{A: in.A*2 + 1, S: "<" + in.S + ">", Nonce: Nonce(src, in), L: []int64{}}
 	if in.O != nil {
 		out.S += "+" + *in.O
 	}
@@ -699,12 +716,10 @@ func (w *World) handler(c *Conn, withSignal bool) func(ctx context.Context, sd *
 					return "error", ErrorOut{Reason: "crashed"}
 				case "panic":
 					w.Fired("plugin_panic")
-					simrt.EnvPoint("env:panic", false, 0)
 					w.Log(Event{Kind: EvExecEnd, Src: c.d.Src, Dep: c.d.N, Data: map[string]any{"output": "", "panic": true}})
 					panic("scripted plugin panic")
 				case "badout":
 					w.Fired("plugin_bad_output")
-					simrt.EnvPoint("env:badout", false, 0)
 					w.Log(Event{Kind: EvExecEnd, Src: c.d.Src, Dep: c.d.N, Data: map[string]any{"output": "", "badout": true}})
 					return "success", AltOut{A: 1}
 				default:
